@@ -146,42 +146,72 @@ fn main() {
                 tool_error("usage: c02 record <prelude.json> <cases.ndjson> <trace.ndjson> <detail.ndjson>");
             }
             let prelude: Vec<Value> = serde_json::from_str(&std::fs::read_to_string(&args[2]).unwrap()).unwrap();
-            let cases: Vec<Value> = read_ndjson(Path::new(&args[3]));
             let stub = std::env::var("C02_STUB").unwrap_or_default();
-            let out = vharness::pool::par_map(&cases, |i, c| {
-                let src = source_of(&prelude, c, &popts);
-                let mut events = vec![ev("start", "", "", 0)];
-                let mut detail = json!({"i": i, "accepted": false, "stubbed": false});
-                match vharness::compile(&Project::single(&src)) {
-                    CompileResult::Ok { lua } => {
-                        events.push(ev("compile_ok", "", "", lua.len() as i64));
-                        let stub_here = !stub.is_empty() && i % 5 == 2;
-                        let d = run_accepted(&lua, &mut events, &stub, stub_here);
-                        detail["accepted"] = json!(true);
-                        detail["stubbed"] = json!(stub_here);
-                        detail["run"] = d;
-                        detail["source"] = json!(src);
+            // the cases are streamed in chunks (a thorough universe is > 100 000 programs: holding cases, sources and
+            // details of all of them at once took 8 GB)
+            use std::io::{BufRead, Write};
+            let input = std::io::BufReader::new(std::fs::File::open(&args[3]).unwrap_or_else(|e| tool_error(&format!("cannot read {}: {}", args[3], e))));
+            let mut tout = std::io::BufWriter::new(std::fs::File::create(&args[4]).unwrap());
+            let mut dout = std::io::BufWriter::new(std::fs::File::create(&args[5]).unwrap());
+            let mut lines = input.lines();
+            let mut base = 0usize;
+            loop {
+                let mut cases: Vec<Value> = Vec::new();
+                for l in lines.by_ref() {
+                    let l = l.unwrap();
+                    if l.trim().is_empty() {
+                        continue;
                     }
-                    CompileResult::Err { errors, bytes_written } => {
-                        let kind = errors.first().map(|e| e.kind.clone()).unwrap_or_default();
-                        events.push(ev("compile_err", &kind, "", errors.len() as i64));
-                        detail["errkind"] = json!(kind);
-                        detail["nerr"] = json!(errors.len());
-                        detail["bytes"] = json!(bytes_written);
-                        detail["errline"] = json!(errors.first().map(|e| e.line).unwrap_or(0));
-                    }
-                    CompileResult::Panic { message, .. } => {
-                        events.push(ev("compile_panic", "", "", 0));
-                        detail["errkind"] = json!("panic");
-                        detail["panic"] = json!(message);
-                        detail["source"] = json!(src);
+                    cases.push(serde_json::from_str(&l).unwrap_or_else(|e| tool_error(&format!("bad case line: {}", e))));
+                    if cases.len() >= 4000 {
+                        break;
                     }
                 }
-                (json!({"id": c["id"], "kd": c["kd"], "v": c["v"], "ev": events}), detail)
-            });
-            let (trace, detail): (Vec<Value>, Vec<Value>) = out.into_iter().unzip();
-            write_ndjson(Path::new(&args[4]), &trace);
-            write_ndjson(Path::new(&args[5]), &detail);
+                if cases.is_empty() {
+                    break;
+                }
+                let out = vharness::pool::par_map(&cases, |j, c| {
+                    let i = base + j;
+                    let src = source_of(&prelude, c, &popts);
+                    let mut events = vec![ev("start", "", "", 0)];
+                    let mut detail = json!({"i": i, "accepted": false, "stubbed": false});
+                    match vharness::compile(&Project::single(&src)) {
+                        CompileResult::Ok { lua } => {
+                            events.push(ev("compile_ok", "", "", lua.len() as i64));
+                            let stub_here = !stub.is_empty() && i % 5 == 2;
+                            let d = run_accepted(&lua, &mut events, &stub, stub_here);
+                            detail["accepted"] = json!(true);
+                            detail["stubbed"] = json!(stub_here);
+                            detail["run"] = d;
+                            detail["source"] = json!(src);
+                        }
+                        CompileResult::Err { errors, bytes_written } => {
+                            let kind = errors.first().map(|e| e.kind.clone()).unwrap_or_default();
+                            events.push(ev("compile_err", &kind, "", errors.len() as i64));
+                            detail["errkind"] = json!(kind);
+                            detail["nerr"] = json!(errors.len());
+                            detail["bytes"] = json!(bytes_written);
+                            detail["errline"] = json!(errors.first().map(|e| e.line).unwrap_or(0));
+                        }
+                        CompileResult::Panic { message, .. } => {
+                            events.push(ev("compile_panic", "", "", 0));
+                            detail["errkind"] = json!("panic");
+                            detail["panic"] = json!(message);
+                            detail["source"] = json!(src);
+                        }
+                    }
+                    (json!({"id": c["id"], "kd": c["kd"], "v": c["v"], "ev": events}), detail)
+                });
+                for (t, d) in out.iter() {
+                    serde_json::to_writer(&mut tout, t).unwrap();
+                    tout.write_all(b"\n").unwrap();
+                    serde_json::to_writer(&mut dout, d).unwrap();
+                    dout.write_all(b"\n").unwrap();
+                }
+                base += cases.len();
+            }
+            tout.flush().unwrap();
+            dout.flush().unwrap();
         }
         _ => tool_error("unknown mode"),
     }
